@@ -46,7 +46,8 @@ PANIC_LABELS = [
     ("asm_exit", r'"mov al, 60"'),
 ]
 JOIN_LABELS = [
-    ("wait", r"futex_wait_fast\("),
+    ("wait_once", r"(?<![a-z_])futex_wait_fast\("),
+    ("wait", r"wait_for_exit\("),
     ("read_slot", r"get_value::<T>\(\)\s*\.into_inner\(\)"),
     ("tsm_dealloc", r"\.tsm\.dealloc\(\)"),
     ("forget", r"mem::forget\(self\)"),
@@ -54,7 +55,8 @@ JOIN_LABELS = [
 DROP_LABELS = [
     ("cas", r"\.compare_exchange\("),
     ("is_err", r"\.is_err\(\)"),
-    ("wait", r"futex_wait_fast\("),
+    ("wait_once", r"(?<![a-z_])futex_wait_fast\("),
+    ("wait", r"wait_for_exit\("),
     ("drop_value", r"drop_in_place\(\s*self\.tsm\.value_mut::<T>\(\)\s*\)"),
     ("tsm_dealloc", r"\.tsm\.dealloc\(\)"),
 ]
@@ -84,8 +86,8 @@ def sites(fname, body):
             recv = m.group(1) if m else "?"
             s["loc"] = recv
         if s["op"] == "futex_wait_fast":
-            m = re.search(r"futex_wait_fast\(\s*self\.tsm\.get_(futex|sync)\(\)\s*,\s*([A-Za-z_0-9]+)\s*\)", body)
-            s["loc"] = m.group(1) if m else "?"
+            m = re.search(r"futex_wait_fast\(\s*(?:self\.tsm\.get_(futex|sync)\(\)|futex)\s*,\s*([A-Za-z_0-9]+)\s*\)", body)
+            s["loc"] = (m.group(1) or "futex") if m else "?"
             s["vals"] = [m.group(2)] if m else ["?"]
         ords = [S.ORD[v.split("::")[-1]] for v in s["vals"] if v.split("::")[-1] in S.ORD]
         if ords:
@@ -123,8 +125,10 @@ def generate(repo=None):
     drop_b = (bodies.get("drop") or [""])[0]
     panic_b = (bodies.get("on_panic") or [""])[0]
     consts = {m.group(1): int(m.group(2)) for m in re.finditer(r"const\s+([A-Z_]+)\s*:\s*u32\s*=\s*(\d+)\s*;", src)}
+    wait_b = (bodies.get("wait_for_exit") or [""])[0]
     tables = {"join": sites("join", join_b), "drop": sites("drop", drop_b), "spawn": sites("spawn", spawn_b),
-              "panic": sites("on_panic", panic_b)}
+              "panic": sites("on_panic", panic_b), "wait": sites("wait_for_exit", wait_b)}
+    wait_cmp = re.search(r"while\s+futex\.load\(\s*Ordering::(\w+)\s*\)\s*==\s*([A-Za-z_0-9]+)\s*\{\s*futex_wait_fast\(", wait_b)
     spawn_ops = ops(spawn_b, SPAWN_LABELS)
     panic_ops = ops(panic_b, PANIC_LABELS)
     join_ops = ops(join_b, JOIN_LABELS)
@@ -143,8 +147,12 @@ def generate(repo=None):
     after_clone = between(spawn_ops, "clone", "ok_handle")
     after_mmap = between(spawn_ops, "mmap", "tls_box")
     init_word = consts.get("UNFINISHED")
-    j_tok = next((s["vals"][0] for s in tables["join"] if s["op"] == "futex_wait_fast"), None)
-    d_tok = next((s["vals"][0] for s in tables["drop"] if s["op"] == "futex_wait_fast"), None)
+    w_tok = next((s["vals"][0] for s in tables["wait"] if s["op"] == "futex_wait_fast"), None)
+    j_tok = next((s["vals"][0] for s in tables["join"] if s["op"] == "futex_wait_fast"), w_tok if "wait" in join_ops else None)
+    d_tok = next((s["vals"][0] for s in tables["drop"] if s["op"] == "futex_wait_fast"), w_tok if "wait" in drop_ops else None)
+    # the loop re-reads the word with at least Acquire and leaves only when it differs from the value waited on
+    recheck = bool(wait_cmp and wait_cmp.group(1) in ("Acquire", "SeqCst") and wait_cmp.group(2) == w_tok
+                   and "wait" in join_ops and "wait" in drop_ops and "wait_once" not in join_ops and "wait_once" not in drop_ops)
     init_tok = re.search(r"AtomicU32::new\(\s*([A-Za-z_0-9]+)\s*\)", (bodies.get("init") or [""])[0])
     derived = {
         "checkClone": after_clone == ["check_clone", "drop_tls", "munmap", "drop_closure", "tsm_dealloc", "ret_err"],
@@ -153,6 +161,7 @@ def generate(repo=None):
         "joinExpect": value_of(j_tok, consts),
         "dropExpect": value_of(d_tok, consts),
         "setTidRet": "set_tid_0" in epilogue and "tsm_dealloc" in epilogue and epilogue.index("set_tid_0") < epilogue.index("tsm_dealloc"),
+        "recheck": recheck,
         "dropValH": "drop_value" in drop_ops and "tsm_dealloc" in drop_ops and "wait" in drop_ops and drop_ops.index("wait") < drop_ops.index("drop_value") < drop_ops.index("tsm_dealloc"),
         "dropValT": "drop_value" in epilogue and "tsm_dealloc" in epilogue and epilogue.index("drop_value") < epilogue.index("tsm_dealloc"),
         "setTidPanic": "set_tid_0" in panic_ops and "tsm_dealloc" in panic_ops and panic_ops.index("set_tid_0") < panic_ops.index("tsm_dealloc"),
@@ -164,7 +173,7 @@ def generate(repo=None):
              "inductive Ord where | relaxed | acquire | release | acqrel | seqcst", "  deriving Repr, DecidableEq", "",
              "structure Site where", "  fn : String", "  op : String", "  loc : String", "  vals : List String", "  ords : List Ord",
              "  deriving Repr, DecidableEq", ""]
-    for name in ["join", "drop", "spawn", "panic"]:
+    for name in ["join", "drop", "spawn", "panic", "wait"]:
         lines.append("def %sSites : List Site := [" % name)
         lines.append(",\n".join("  ⟨%s, %s, %s, [%s], [%s]⟩" % (L(s["fn"]), L(s["op"]), L(s["loc"]), ", ".join(L(v) for v in s["vals"]),
                                                              ", ".join("." + o for o in s["ords"])) for s in tables[name]))
@@ -174,7 +183,7 @@ def generate(repo=None):
         lines.append("def %s : List String := [%s]" % (name, ", ".join(L(x) for x in seq)))
     lines.append("def cloneAsmSyscalls : List Nat := [%s]" % ", ".join(str(x) for x in clone_asm))
     lines.append("def unfinished : Option Nat := %s" % ("none" if init_word is None else "some %d" % init_word))
-    for k in ["checkClone", "mmapCleanup", "setTidRet", "setTidPanic", "dropValH", "dropValT"]:
+    for k in ["checkClone", "mmapCleanup", "setTidRet", "setTidPanic", "dropValH", "dropValT", "recheck"]:
         lines.append("def %s : Bool := %s" % (k, "true" if derived[k] else "false"))
     for k in ["initWord", "joinExpect", "dropExpect"]:
         # an operand the extractor cannot resolve becomes a value no futex word ever holds: the Lean check then fails
